@@ -1016,8 +1016,10 @@ class SoftwareSwitchBase (object):
     req = ofp.body
     if req.port_no == OFPP_NONE:
       return list(self.port_stats.values())
-    else:
+    elif req.port_no in self.port_stats:
       return self.port_stats[req.port_no]
+    else:
+      return [] # No such port: nothing to report
 
   def _stats_queue (self, ofp, connection):
     # We don't support queues whatsoever so either send an empty list or send
